@@ -68,6 +68,10 @@ void cv_fence(int ord);
 #define CV_ATOMIC_RMW_OR_i32(p, v, o)  cv_atomic_or_i32((cv_i32 *)(p), v, o)
 #define CV_ATOMIC_RMW_AND_i8(p, v, o)  cv_atomic_and_i8((cv_i8 *)(p), v, o)
 #define CV_ATOMIC_RMW_AND_i32(p, v, o) cv_atomic_and_i32((cv_i32 *)(p), v, o)
+#define CV_ATOMIC_LOAD_p64(p, o) CV_P64_LOAD(p, o)
+#define CV_ATOMIC_STORE_p64(p, v, o) CV_P64_STORE(p, v, o)
+#define CV_CMPXCHG_p64(p, e, d, w, so, fo) CV_P64_CMPXCHG(p, e, d, w, so, fo)
+#define CV_ATOMIC_RMW_XCHG_p64(p, v, o) CV_P64_XCHG(p, v, o)
 #define CV_FENCE(o) cv_fence(o)
 
 /* heap accounting ghosts (written only by the heap primitive) */
